@@ -63,6 +63,17 @@ META = {
                 strengthened="call histories on trace objects (direct burn(n), incremental burn(1) chains, summaries of the parent first) are now tape-chosen; before, every summary came from a fresh trace.burn(n)"),
  "C14-n2": dict(property="C14", breaks="_posterior_frequencies' per-allele 'last seen' stamp is the within-chain step index: occurrence is under-counted across chains",
                 needs="multi-chain trace with an allele present at step s of chain c, absent until step s of chain c+1", caught_by="C14 quick: allele_frequency_mismatch (1304 of 4000 runs)", strengthened=None),
+ "C18-n1": dict(property="C18", breaks="trio_allele_log_pmf passes gamete_ploidy=tau_q to gamete_const_log_pmf for gamete p (copy-paste slip): Gibbs conditional wrong for unbalanced gametes",
+                needs="both parents known, tau_p != tau_q and comb(ploidy_p, tau_p-1) != comb(ploidy_p, tau_q-1), e.g. 4x x 2x -> 3x", caught_by="C18 quick: ped_gibbs_not_full_conditional (1027 of 4000 runs)", strengthened=None),
+ "C18-n2": dict(property="C18", breaks="pair_allele_swap_step skips the read-likelihood ratio unless BOTH parents have reads ('and' instead of 'or')",
+                needs="a parental pair in which exactly one parent has no reads", caught_by="C18 quick: detailed_balance_ped_swap (457 of 4000 runs)", strengthened=None),
+ "C08-n1": dict(property="C08", breaks="extract_sample_ids iterates a set of sample names: the sample column order follows str hashing, i.e. PYTHONHASHSEED",
+                needs="a BAM that yields two or more sample ids and two separate processes (never visible inside one process)",
+                caught_by="C08 quick: hashseed_dependence (post-batch re-execution of 12 batches in a fresh interpreter under PYTHONHASHSEED=4242)",
+                strengthened="the hash-seed re-execution was a thorough-tier extra; it now also runs (12 batches) in the quick tier"),
+ "C08-n2": dict(property="C08", breaks="_writer uses queue.get(timeout=30) and treats queue.Empty as 'producers have gone': records arriving after a quiet period are never written, exit status 0",
+                needs="--cores >= 2 and a gap of more than 30 s between records reaching the writer (one slow locus)",
+                caught_by="C08 quick: missing_record", strengthened="waits with a deadline (queue.get / AsyncResult.get / wait with timeout=) are now modelled: while the wait is unsatisfied the scheduler may let the deadline expire (stalled-node fault); before, the stub did not accept timeout= at all"),
  "C15-n1": dict(property="C15", breaks="the homozygosity screen is skipped when fix_homozygous >= 1.0: sites whose single-SNV posterior is exactly 1.0 are no longer fixed at a threshold of exactly 1.0",
                 needs="--mcmc-fix-homozygous 1.0 and deep clean reads (posterior saturates to 1.0 in float64)", caught_by="C15 quick: fixed_sites (13 of 6000 runs)",
                 strengthened="saturated posteriors (every other genotype < 3e-20) are now decided at threshold 1.0 instead of being skipped as 'within 1e-9 of the threshold'; deeper read sets added"),
